@@ -1,1 +1,311 @@
-/-! C09 — property theorems (none yet). -/
+import Req.Pool.Lockset
+import Req.Pool.H1Pool
+import Req.Pool.Pairing
+import Req.Lemmas.C09Lockset
+import Req.Lemmas.C09Pool
+import Req.Lemmas.C09PoolExcl
+import Req.Lemmas.C09PoolLru
+import Req.Lemmas.C09PoolCount
+import Req.Lemmas.C09PoolOnce
+import Req.Lemmas.C09Pairing
+import Req.Lemmas.C09Monitor
+/-!
+C09 — property theorems.
+
+Lock-set part
+* `lockset_ordered`  : two accesses by different threads made under a common lock are ordered
+                       by happens-before.
+* `lockset_sound`    : if every access to `x` holds a common lock, no execution (well-formed
+                       trace) contains a race on `x`.
+* `static_lockset_sound` : the same from STATIC facts — if every access site of `x` lists `l`
+                       and the trace conforms to the sites, there is no race on `x`.
+* `guarded_gives_common` : the executable table check `guarded` really yields a lock that is
+                       in every (non-setup) site's lock set.
+The regenerated table itself is discharged in `lean/Bridge/C09.lean` (`anchored_fields_guarded`).
+
+Pool part (model `Req/Pool/H1Pool.lean`; an op list is one interleaving at lock granularity)
+* `pool_inv`            : ∀ ops, `Inv` holds after `ops` — every connection is in at most one of
+                          {an idle list (once), owned by exactly one request, in transit between two
+                          critical sections}; waiters queued for a key ⇒ no idle connection of that
+                          key (no lost hand-off); per-key idle ≤ MaxIdleConnsPerHost, total idle ≤
+                          MaxIdleConns, connsPerHost ≤ MaxConnsPerHost; connsPerHost[k] = live
+                          connections + running dials of key k; neither the "connCount underflow"
+                          nor the "already in LRU"/"dup idle pconn" panic is reachable.
+* `deliver_once`        : once a want holds a connection it never holds a different one, and a
+                          want that is done never becomes waiting again.
+Pairing part (model `Req/Pool/Pairing.lean`)
+* `pairing`             : the i-th response read on a connection goes to the i-th request
+                          written on it.
+* `put_only_after_eof`  : whenever a connection is available to the pool (fresh or put back),
+                          every request written on it has had its response fully consumed, none is
+                          expected, and the read loop is back at its top.
+* `one_request_at_a_time` : `numExpectedResponses ≤ 1`.
+
+Monitor part (`Req/Pool/Monitor.lean`, the judge of the concurrent lanes)
+* `monitor_accepts_only_own_responses` : in a history the monitor accepts, every caller that
+                          finished got the echo of its own tag with an intact body.
+* `monitor_accepts_no_overlap` : every HTTP/1.1 request event it lets pass found no other
+                          request outstanding on that connection.
+
+NOT proved (see notes/C09.md): liveness (every live connection is in at least one place / no
+leak), HTTP/2 (`pconn.alt`) entries of the idle list, `IdleConnTimeout` staleness (`tooOld`) —
+the latter two are outside the model; the Go memory model below lock granularity.
+-/
+namespace Req.Props.C09
+open Req.Pool.Lockset Req.Lemmas.C09Lockset
+
+/-- Two accesses by different threads, both made while holding `l`, are ordered. -/
+theorem lockset_ordered (tr : List Ev) (hwf : WF tr) (l : Lock) (i j : Nat) (t₁ t₂ : Tid)
+    (x₁ x₂ : Loc) (w₁ w₂ : Bool) (hij : i < j) (hne : t₁ ≠ t₂)
+    (hi : tr[i]? = some (.acc t₁ x₁ w₁)) (hj : tr[j]? = some (.acc t₂ x₂ w₂))
+    (h1 : HoldsAt tr i t₁ l) (h2 : HoldsAt tr j t₂ l) : HB tr i j := by
+  obtain ⟨d, rfl⟩ : ∃ d, j = i + d := ⟨j - i, by omega⟩
+  obtain ⟨r, a, hr, hra, haj, her, hea⟩ := handoff_between tr hwf l t₁ t₂ hne i d h1 h2
+  have hir : i < r := by
+    rcases Nat.lt_or_ge i r with h | h
+    · exact h
+    · have : r = i := by omega
+      subst this; rw [hi] at her; cases her
+  exact HB.trans (HB.po hir hi her rfl) (HB.trans (HB.sync hra her hea) (HB.po haj hea hj rfl))
+
+/-- **lockset_sound** — the classical lock-set theorem: in every well-formed execution, if all
+accesses to `x` are made while holding one common lock `l`, no two accesses to `x` by different
+threads are concurrent (unordered by happens-before); in particular there is no data race on `x`. -/
+theorem lockset_sound (tr : List Ev) (hwf : WF tr) (x : Loc) (l : Lock)
+    (hg : Guarded tr x l) : ¬ Race tr x := by
+  rintro ⟨i, j, t₁, t₂, w₁, w₂, hij, hi, hj, hne, _, hnhb⟩
+  exact hnhb (lockset_ordered tr hwf l i j t₁ t₂ x x w₁ w₂ hij hne hi hj (hg i t₁ w₁ hi) (hg j t₂ w₂ hj))
+
+/-- **static_lockset_sound** — from static facts: `l` is in the lock set of every access site
+of `x`, and the execution conforms to the sites ⇒ no race on `x`. -/
+theorem static_lockset_sound (facts : StaticFacts) (tr : List Ev) (hwf : WF tr)
+    (hc : Conforms facts tr) (x : Loc) (l : Lock) (hall : ∀ s ∈ facts x, l ∈ s) : ¬ Race tr x := by
+  apply lockset_sound tr hwf x l
+  intro i t w hi
+  obtain ⟨s, hs, hh⟩ := hc i t x w hi
+  exact hh l (hall s hs)
+
+/-- **guarded_gives_common** — the executable check is sound: when `guarded as` holds and some
+non-setup site exists, there is a lock contained in the lock set of every non-setup site. -/
+theorem guarded_gives_common (as : List Access) (hg : guarded as = true) (hne : live as ≠ []) :
+    ∃ l, ∀ a ∈ live as, l ∈ a.held := by
+  unfold guarded at hg
+  have hc : (commonLocks as).isEmpty = false := by
+    cases h : (live as).isEmpty with
+    | true => simp [List.isEmpty_iff] at h; exact absurd h hne
+    | false => simpa [h] using hg
+  unfold commonLocks at hc
+  cases hl : live as with
+  | nil => exact absurd hl hne
+  | cons a rest =>
+    rw [hl] at hc
+    simp only at hc
+    cases hf : a.held.filter (fun l => rest.all (fun b => b.held.contains l)) with
+    | nil => rw [hf] at hc; simp at hc
+    | cons l _ =>
+      have hmem : l ∈ a.held.filter (fun l => rest.all (fun b => b.held.contains l)) := by
+        rw [hf]; exact List.mem_cons_self
+      rw [List.mem_filter] at hmem
+      refine ⟨l, ?_⟩
+      intro b hb
+      rcases List.mem_cons.mp hb with rfl | hb
+      · exact hmem.1
+      · have := List.all_eq_true.mp hmem.2 b hb
+        simpa using this
+
+/-! Non-vacuity. -/
+
+/-- A well-formed two-thread trace in which both threads write `x = 7` under lock 1. -/
+def exTrace : List Ev :=
+  [.acq 1 1, .acc 1 7 true, .rel 1 1, .acq 2 1, .acc 2 7 true, .rel 2 1]
+
+example : holders (exTrace.take 1) 1 = some 1 := by decide
+example : holders (exTrace.take 4) 1 = some 2 := by decide
+/-- and an ill-disciplined one (thread 2 does not take the lock): the hypotheses of
+`lockset_sound` genuinely exclude it. -/
+example : holders ([Ev.acq 1 1, .acc 1 7 true, .acc 2 7 true].take 2) 1 ≠ some 2 := by decide
+
+/-- The table check distinguishes a guarded from an unguarded field. -/
+example : guarded [⟨[1], true, false, [5]⟩, ⟨[2], false, false, [4, 5]⟩] = true := by decide
+example : guarded [⟨[1], true, false, [5]⟩, ⟨[2], false, false, []⟩] = false := by decide
+example : verdict [⟨[1], true, false, [5]⟩, ⟨[1], true, false, [5]⟩, ⟨[2], false, false, []⟩]
+    = .unguarded 5 [[2]] := by decide
+
+
+/-! ## Pool -/
+section Pool
+open Req.Pool.H1Pool Req.Lemmas.C09Pool Req.Lemmas.C09PoolExcl Req.Lemmas.C09PoolLru
+open Req.Lemmas.C09PoolCount Req.Lemmas.C09PoolOnce
+
+/-- The pool invariant, spelled out. `(s.wst w).holds c` = request `w` owns connection `c`
+(delivered to its `wantConn` or already received by `getConn`). -/
+structure Inv (cfg : Cfg) (s : St) : Prop where
+  /-- an idle list never contains a connection twice, and only connections of its own key -/
+  idle_nodup : ∀ k, (s.idle k).Nodup
+  idle_key : ∀ k c, c ∈ s.idle k → s.ckey c = some k
+  /-- an idle connection is owned by no request and held by no pool routine -/
+  idle_not_owned : ∀ k c w, c ∈ s.idle k → (s.wst w).holds c = false
+  idle_not_transit : ∀ k c, c ∈ s.idle k → c ∉ s.transit
+  /-- a connection is owned by at most one request -/
+  owner_unique : ∀ w₁ w₂ c, (s.wst w₁).holds c = true → (s.wst w₂).holds c = true → w₁ = w₂
+  /-- a connection in transit (between two critical sections of a pool routine) is owned by nobody -/
+  transit_not_owned : ∀ c w, c ∈ s.transit → (s.wst w).holds c = false
+  transit_nodup : s.transit.Nodup
+  /-- no lost hand-off: waiters queued for a key ⇒ no idle connection listed for it -/
+  handoff : ∀ k, s.idleWait k ≠ [] → s.idle k = []
+  /-- limits -/
+  idle_per_host : ∀ k, (s.idle k).length ≤ cfg.idlePerHost
+  idle_total : cfg.maxIdle ≠ 0 → ∀ ks : List Key, ks.Nodup →
+      (ks.map (fun k => (s.idle k).length)).sum ≤ cfg.maxIdle
+  conns_per_host : cfg.maxConnsPerHost > 0 → ∀ k, (s.cph k : Int) ≤ cfg.maxConnsPerHost
+  /-- slot accounting: connsPerHost[k] = live connections of k + running dials for k -/
+  slots : cfg.maxConnsPerHost > 0 → ∀ k,
+      s.cph k = liveCnt s.ckey s.closed k s.conns + dialCnt s.wkey k s.dialing
+  /-- the internal-error panics are unreachable -/
+  no_dup_panic : s.dupPanic = false
+  no_underflow : cfg.maxConnsPerHost > 0 → s.underflow = false
+
+/-- **pool_inv** — for every configuration and every interleaving of the pool's critical
+sections, the invariant holds. -/
+theorem pool_inv (cfg : Cfg) (ops : List Op) : Inv cfg (run cfg {} ops) := by
+  obtain ⟨he, hl⟩ := Excl_LruAll_run cfg {} ops Excl_init (LruAll_init cfg)
+  have hiw := IW_run cfg {} ops (by intro k hk; simp at hk)
+  have hil := IL_run cfg {} ops (by intro k; simp)
+  have hcl := CL_run cfg {} ops (by intro hpos k; simp; omega)
+  exact {
+    idle_nodup := he.idleNodup
+    idle_key := he.idleKey
+    idle_not_owned := he.idleNotHeld
+    idle_not_transit := he.idleNotTransit
+    owner_unique := he.heldUnique
+    transit_not_owned := he.transitNotHeld
+    transit_nodup := he.transitNodup
+    handoff := hiw
+    idle_per_host := hil
+    idle_total := fun hm ks hks => Nat.le_trans (total_idle_le_lru _ he hl.1 ks hks) (hl.2 hm)
+    conns_per_host := hcl
+    slots := fun hpos => (Excl_Acct_run cfg hpos {} ops Excl_init Acct_init).bal
+    no_dup_panic := hl.1.noDup
+    no_underflow := fun hpos => (Excl_Acct_run cfg hpos {} ops Excl_init Acct_init).noUnderflow
+  }
+
+/-- **deliver_once** — a want is delivered at most once: after any further interleaving a want
+that owned connection `c` owns `c` or nothing, and a done want never waits again. -/
+theorem deliver_once (cfg : Cfg) (ops more : List Op) (w : Want) (c d : Conn)
+    (hc : ((run cfg {} ops).wst w).holds c = true)
+    (hd : ((run cfg (run cfg {} ops) more).wst w).holds d = true) : d = c := by
+  have hsame : ∀ a : WSt, a.holds c = true → a.holds d = true → d = c := by
+    intro a h1 h2
+    cases a <;> simp [WSt.holds] at h1 h2 <;> (subst h1; exact h2.symm)
+  have h := (WstOK_run cfg (run cfg {} ops) more w).2 d hd
+  rcases h with h | h
+  · exact hsame _ hc h
+  · rw [h] at hc; cases hc
+
+theorem done_stays_done (cfg : Cfg) (ops more : List Op) (w : Want)
+    (h : (run cfg {} ops).wst w ≠ .waiting) : (run cfg (run cfg {} ops) more).wst w ≠ .waiting :=
+  (WstOK_run cfg (run cfg {} ops) more w).1 h
+
+/-! Non-vacuity: a concrete interleaving in which a connection is dialled for request 0, used,
+put back, reused by request 1, and in which request 2 (MaxConnsPerHost = 1) waits and gets the
+connection handed over by `tryPutIdleConn`. -/
+def exCfg : Cfg := ⟨0, 0, 1, false⟩
+def exOps : List Op :=
+  [.newWant 0 0, .queueIdle 0, .queueDial 0, .dialOk 0 7, .recv 0, .finishPut 0,   -- conn 7 idle
+   .newWant 1 0, .queueIdle 1, .recv 1,                                             -- reused by 1
+   .newWant 2 0, .queueIdle 2, .queueDial 2,                                        -- 2 waits
+   .finishPut 1]                                                                    -- handed to 2
+example : (run exCfg {} (exOps.take 6)).idle 0 = [7] := by decide
+example : (run exCfg {} (exOps.take 9)).wst 1 = .inUse 7 := by decide
+example : (run exCfg {} (exOps.take 12)).dialWait 0 = [2] := by decide
+example : (run exCfg {} exOps).wst 2 = .gotConn 7 ∧ (run exCfg {} exOps).idle 0 = [] ∧
+    (run exCfg {} exOps).cph 0 = 1 := by decide
+
+end Pool
+
+/-! ## Pairing -/
+section Pairing
+open Req.Pool.Pairing Req.Lemmas.C09Pairing
+
+/-- **pairing** — the i-th response read on a connection is delivered to the i-th request
+written on it, for every interleaving of `roundTrip`, `readLoop` and body consumption. -/
+theorem pairing (ops : List Req.Pool.Pairing.Op) (r i : Nat)
+    (h : (r, i) ∈ (Req.Pool.Pairing.run {} ops).pairs) :
+    (Req.Pool.Pairing.run {} ops).started[i]? = some r :=
+  (PInv_run {} ops PInv_init).pairs (r, i) h
+
+/-- **put_only_after_eof** — whenever the connection is available to the pool, no response is
+expected, nothing is queued for the read loop, the read loop is at its top, and every request
+ever written on the connection has had its response fully consumed. -/
+theorem put_only_after_eof (ops : List Req.Pool.Pairing.Op)
+    (h : (Req.Pool.Pairing.run {} ops).avail = true) :
+    let s := Req.Pool.Pairing.run {} ops
+    s.numExpected = 0 ∧ s.reqch = [] ∧ s.phase = .peeking ∧ s.consumed = s.started.length := by
+  have hinv := (PInv_run {} ops PInv_init).shape
+  rcases hinv with ⟨_, h2, h3, _, h5, h6⟩ | ⟨h1, _⟩ | ⟨h1, _⟩ | ⟨h1, _⟩
+  · exact ⟨h6, h3, h2, h5⟩
+  · rw [h1] at h; cases h
+  · rw [h1] at h; cases h
+  · rw [h1] at h; cases h
+
+/-- **one_request_at_a_time** — `numExpectedResponses` never exceeds 1. -/
+theorem one_request_at_a_time (ops : List Req.Pool.Pairing.Op) :
+    (Req.Pool.Pairing.run {} ops).numExpected ≤ 1 := by
+  exact (PInv_run {} ops PInv_init).neLe
+
+/-- Non-vacuity: two requests on one connection; the second is started only after the first
+body was read to EOF and the connection put back; both get their own response. -/
+example :
+    let s := Req.Pool.Pairing.run {}
+      [.start 10, .readHead true true true true, .bodyDone true true true,
+       .start 11, .readHead false true true true]
+    s.pairs = [(11, 1), (10, 0)] ∧ s.avail = true ∧ s.consumed = 2 := by decide
+/-- and a `start` while the first body is still unread is ignored (the pool never hands the
+connection out then). -/
+example :
+    (Req.Pool.Pairing.run {} [.start 10, .readHead true true true true, .start 11]).started = [10] := by
+  decide
+
+end Pairing
+
+/-! ## History monitor -/
+section Monitor
+open Req.Pool.Monitor Req.Lemmas.C09Monitor
+
+/-- **monitor_accepts_only_own_responses** — acceptance by the spec monitor means: every
+`done` event of the history carries the caller's own tag and a body that matched it. -/
+theorem monitor_accepts_only_own_responses (cfg : Req.Pool.Monitor.Cfg) (h : List Req.Pool.Monitor.Ev)
+    (hacc : check cfg h = .ok ()) (t echo : Nat) (ok early : Bool)
+    (hm : Req.Pool.Monitor.Ev.done t echo ok early ∈ h) : echo = t ∧ ok = true := by
+  unfold check at hacc
+  cases hr : runFrom cfg {} 0 h with
+  | error e => rw [hr] at hacc; cases hacc
+  | ok s =>
+    obtain ⟨s₁, s₂, hs⟩ := runFrom_ok_mem cfg h {} 0 s hr _ hm
+    exact step_done_ok cfg s₁ s₂ t echo ok early hs
+
+/-- **monitor_accepts_no_overlap** — every `req` event of an accepted history was taken in a
+monitor state with no request outstanding on that connection. -/
+theorem monitor_accepts_no_overlap (cfg : Req.Pool.Monitor.Cfg) (h : List Req.Pool.Monitor.Ev)
+    (hacc : check cfg h = .ok ()) (c t : Nat) (hm : Req.Pool.Monitor.Ev.req c t ∈ h) :
+    ∃ s₁ s₂, Req.Pool.Monitor.step cfg s₁ (.req c t) = .ok s₂ ∧ (s₁.outstanding.lookup c).isSome = false := by
+  unfold check at hacc
+  cases hr : runFrom cfg {} 0 h with
+  | error e => rw [hr] at hacc; cases hacc
+  | ok s =>
+    obtain ⟨s₁, s₂, hs⟩ := runFrom_ok_mem cfg h {} 0 s hr _ hm
+    exact ⟨s₁, s₂, hs, step_req_ok cfg s₁ s₂ c t hs⟩
+
+/-- Non-vacuity: a two-request history on one connection is accepted, the same history with the
+second request arriving before the first response is complete is rejected as `overlap`, and a
+swapped echo as `mixed-response`. -/
+example : verdict ⟨1, 2, 0⟩ [.send 1, .send 2, .opened 5 0, .req 5 1, .respLast 5 1, .done 1 1 true false,
+    .req 5 2, .respLast 5 2, .done 2 2 true false] = "ok" := by decide
+example : verdict ⟨1, 2, 0⟩ [.send 1, .send 2, .opened 5 0, .req 5 1, .req 5 2] = "violation overlap 4" := by
+  decide
+example : verdict ⟨1, 2, 0⟩ [.send 1, .send 2, .opened 5 0, .req 5 1, .respLast 5 1, .done 1 2 true false]
+    = "violation mixed-response 5" := by decide
+
+end Monitor
+
+end Req.Props.C09
